@@ -196,7 +196,7 @@ def build(src):
     u.add(F("multi_count", MOPT, r"std::size_t multi_option::count\(\) const", "size_t multi_count(const struct omulti *self)", ["C02"], dflt="0", rules=MB))
     u.static_facts.append("toggle::parse_env_value compares against %d string literals; %d of them are outside the documented vocabulary: %r" % (0, 0, []))
     u._unknown_words = unknown_words
-    u.stubs += ["nitro_env_get", "ovec_push_back", "ogetline_next"]
+    u.stubs += ["nitro_env_get", "ovec_push_back", "ogetline_next", "ovec_at"]
     u.trusted += [
         "nitro::env::get(name) (verified in the envdl unit, C19) is used through its contract: the value of the variable, or the empty string when unset",
         "std::getline(stream, element, ';') yields the ';'-separated pieces in order and no final empty piece (ogetline stub); std::vector::push_back/clear/operator= as the standard says",
@@ -205,31 +205,35 @@ def build(src):
     # ------------------------------------------------------------------ layer 3: parser
     P3 = ["C01", "C02", "C04", "C12"]
     K = 2       # declarations per kind (DESIGN.md 4.1); arrays in key order
-    it_rules = [Rule("D3.iterator-deref", r"\*it\b", "(*it_ref)"), Rule("D3.iterator-arrow", r"\bit->", "(*it_ref)->"),
-                Rule("D3.iterator-next", r"\bit \+ 1\b", "(*it_ref) + 1"), Rule("D3.iterator-inc", r"\+\+it\b", "++(*it_ref)")]
-    tok_calls = [Rule("D6.token-call", r"\(\*it_ref\)->(is_short|has_value|is_value|is_double_dash|is_named)\(\)", r"ui_\1((*it_ref))"),
-                 Rule("D6.token-call", r"\bnext->(is_value)\(\)", r"ui_\1(next)"),
+    # std::vector<user_input>::const_iterator is modelled as a POSITION in the vector (size_t) next to the vector itself: `*it` is
+    # args->a[it], `it + 1` the next position, `end` the length.  (A pointer model made every token access after an advance a
+    # byte-extract at a symbolic offset: 10^8 clauses.)
+    it_rules = [Rule("D3.iterator-deref", r"\*it\b", "IT_TOK"), Rule("D3.iterator-arrow", r"\bit->", "IT_TOK->"),
+                Rule("D3.iterator-next", r"\bit \+ 1\b", "(*it_ref) + 1"), Rule("D3.iterator-inc", r"\+\+it\b", "++(*it_ref)"),
+                Rule("D3.iterator-end", r"\bnext != end\b", "next != args->n"), Rule("D3.iterator-deref", r"\*next\b", "NEXT_TOK"),
+                Rule("D3.iterator-arrow", r"\bnext->", "NEXT_TOK->")]
+    u.shared_decls += "#define IT_TOK (&args->a[*it_ref])\n#define NEXT_TOK (&args->a[next])\n"
+    tok_calls = [Rule("D6.token-call", r"\bIT_TOK->(is_short|has_value|is_value|is_double_dash|is_named)\(\)", r"ui_\1(IT_TOK)"),
+                 Rule("D6.token-call", r"\bNEXT_TOK->(is_value)\(\)", r"ui_\1(NEXT_TOK)"),
                  Rule("D6.token-call", r"\bin\.(is_short)\(\)", r"ui_\1(in)"),
-                 Rule("D6.short-total", r"\(\*it_ref\)->as_short_list\(\)\.size\(\)", "ui_short_total((*it_ref))"),
+                 Rule("D6.short-total", r"\bIT_TOK->as_short_list\(\)\.size\(\)", "ui_short_total(IT_TOK)"),
                  Rule("D6.short-total", r"\bin\.as_short_list\(\)\.size\(\)", "ui_short_total(in)"),
-                 Rule("D6.token-data", r"\(\*it_ref\)->data\(\)", "ui_data((*it_ref))"), Rule("D6.token-data", r"\bin\.data\(\)", "ui_data(in)")]
+                 Rule("D6.token-data", r"\bIT_TOK->data\(\)", "ui_data(IT_TOK)"), Rule("D6.token-data", r"\bin\.data\(\)", "ui_data(in)")]
     for nm, kind, upd in [("tpo_option", "ooption", "option_update_value"), ("tpo_multi", "omulti", "multi_update_value")]:
         u.add(F(nm, PAR, r"bool parser::try_parse_as_option\(Options&& options, Iter& it, Iter end\)",
-                "nbool %s(struct %s *options, size_t n_options, const struct user_input **it_ref, const struct user_input *end)" % (nm, kind), P3 + ["C03", "C11"], dflt="0",
+                "nbool %s(struct %s *options, size_t n_options, size_t *it_ref, const struct oargs *args)" % (nm, kind), P3 + ["C03", "C11"], dflt="0",
                 pre=[Rule("D2.auto", r"\bauto\b", "__auto_type")] + it_rules + tok_calls,
                 rules=[Rule("D10.map-loop", r"for \(__auto_type& option : options\)", "for (size_t k_ = 0; k_ < n_options; ++k_)"),
-                       Rule("D9.matches", r"\boption\.second->matches\(\(\*it_ref\)\)", "base_matches(&options[k_].b, (*it_ref))"),
-                       Rule("D9.update_value", r"\boption\.second->update_value\((\(\*it_ref\)|\*next)\);", lambda mm, upd=upd: "%s(&options[k_], %s); NITRO_PROPAGATE;" % (upd, "next" if "next" in mm.group(1) else "(*it_ref)")),
-                       Rule("D3.local-iterator", r"__auto_type next =", "const struct user_input *next ="),
+                       Rule("D9.matches", r"\boption\.second->matches\(IT_TOK\)", "base_matches(&options[k_].b, IT_TOK)"),
+                       Rule("D9.update_value", r"\boption\.second->update_value\((IT_TOK|NEXT_TOK)\);", lambda mm, upd=upd: "%s(&options[k_], %s); NITRO_PROPAGATE;" % (upd, mm.group(1))),
+                       Rule("D3.local-iterator", r"__auto_type next =", "size_t next ="),
                        Rule("D4.raise-arg", r"\boption\.second->name\(\)", "0")],
                 must_fire=["D10.map-loop", "D9.matches", "D9.update_value"], unwind=K + 1, extra_replace=["ui_as_short_list"],
                 harness="""void h_%s(void)
 {
-    struct %s options[NITRO_K]; struct user_input toks[2]; size_t n_options = nondet_size_t();
-    const struct user_input *it = &toks[0];
-    const struct user_input *end = nondet_nbool() ? &toks[1] : (&toks[1]) + 1;
+    struct %s options[NITRO_K]; struct oargs a; size_t n_options = nondet_size_t(); size_t it = 0;
     NITRO_HAVOC;
-    %s(options, n_options, &it, end);
+    %s(options, n_options, &it, &a);
     NITRO_CANARIES;
 }
 """ % (nm, kind, nm)))
@@ -284,4 +288,178 @@ def build(src):
                        ("parser_accept_positionals", r"void parser::accept_positionals\(std::size_t amount\)", "void parser_accept_positionals(struct oparser *self, size_t amount)")]:
         u.add(F(nm, PAR, sig, c, ["C12"], rules=[Rule("D3.members", r"(?<![\w.>])(greedy_positionals_|allowed_positionals_)\b", r"self->\1")]))
     u.shared_decls += "#define NITRO_K %d\n" % K
+    # ---- parse(vector) and parse(argc, argv)
+    NARGS = 3
+    u.shared_decls += "#define NITRO_NARGS %d\n" % NARGS
+    prov = splice(r"arguments parser::parse\(const std::vector<options::user_input>& args\)", r"^(.*)$", lambda mm, arr, kind: "") if False else None
+    pd = src.find(PAR, r"arguments parser::parse\(const std::vector<options::user_input>& args\)")
+    lam = re.search(r"for_each_option\(\[&provided\]\(auto& option\) \{\s*if \(option\.has_non_default\(\)\)\s*\{\s*provided\.insert\(option\.name\(\)\);\s*\}\s*\}\);", pd["body"])
+    if not lam:
+        raise ExtractionError("parse(): the `provided` loop is no longer for_each_option([&provided](auto& option){ if (option.has_non_default()) provided.insert(option.name()); })")
+    prov_c = "".join("    for (size_t k_ = 0; k_ < self->%s; ++k_)\n    { if (base_has_non_default(&self->%s[k_].b)) { oprovided_insert(&provided, base_name(&self->%s[k_].b)); } }\n" % (n, arr, arr) for arr, n, kind in KINDS)
+    parse_rules = [
+        Rule("D8.provided-lambda", r"for_each_option\(\[&provided\]\(auto& option\) \{.*?\}\s*\}\);", prov_c.replace("\\", "\\\\"), flags=re.S),
+        Rule("D6.member-call", r"(?<![\w.>:])(check_parser_consistency|prepare_options|validate_options)\(\);", lambda mm: "parser_%s(self); NITRO_PROPAGATE;" % {"check_parser_consistency": "check_consistency"}.get(mm.group(1), mm.group(1))),
+        Rule("D7.vector-decl", r"std::vector<std::string>\s+positionals;", "struct ovec positionals; ovec_clear(&positionals);"),
+        Rule("D7.set-decl", r"std::set<std::string>\s+provided;", "struct oprovided provided; oprovided_init(&provided);"),
+        Rule("D10.vector-loop", r"for \(auto it = args\.begin\(\); it != args\.end\(\); \+\+it\)", "for (size_t it = 0; it != args->n; ++it)"),
+        Rule("D4.guarded-disjunction", r"if \(try_parse_as_option\(get_all_options\(\), it, args\.end\(\)\) \|\|\s*try_parse_as_option\(get_all_multi_options\(\), it, args\.end\(\)\) \|\|\s*try_parse_as_toggle\(\*it\)\)",
+             "nbool nitro_m = tpo_option(self->opts, self->n_opts, &it, args) || (!nitro_exc && tpo_multi(self->mopts, self->n_mopts, &it, args)) || (!nitro_exc && try_parse_as_toggle(self, &args->a[it])); NITRO_PROPAGATE;\n            if (nitro_m)"),
+        Rule("D6.token-call", r"\bit->(is_value|is_double_dash)\(\)", r"ui_\1(&args->a[it])"),
+        Rule("D7.vector-push", r"\bpositionals\.push_back\(it->data\(\)\);", "ovec_push_back(&positionals, ui_data(&args->a[it]));"),
+        Rule("D7.vector-size", r"\bpositionals\.size\(\)", "positionals.count"),
+        Rule("D3.rvo-ctor", r"return\s+arguments\(get_all_options\(\), get_all_multi_options\(\), get_all_toggles\(\), positionals,\s*provided\);", "ret->parser_ = self; ret->positionals_ = positionals; ret->provided_ = provided; return;"),
+        Rule("D3.members", r"(?<![\w.>])(allowed_positionals_|greedy_positionals_)\b", r"self->\1"),
+    ]
+    u.add(F("parser_parse", PAR, r"arguments parser::parse\(const std::vector<options::user_input>& args\)", "void parser_parse(struct oarguments *ret, struct oparser *self, const struct oargs *args)", P3 + ["C03", "C11", "C14"],
+            rules=parse_rules, must_fire=["D8.provided-lambda", "D10.vector-loop", "D4.guarded-disjunction", "D7.vector-push", "D3.rvo-ctor"],
+            harness="""void h_parser_parse(void)
+{
+    struct oparser p; struct oargs a; struct oarguments r;
+    NITRO_HAVOC;
+    parser_parse(&r, &p, &a);
+    NITRO_CANARIES;
+}
+"""))
+    u.functions[-1].unwind = max(NARGS, K) + 1
+    u.functions[-1].timeout = 1500
+    # the two try_parse_as_option instantiations are inlined (their own contracts are verified separately): the iterator then
+    # stays a concrete position along every path instead of becoming a symbolic pointer offset
+    u.functions[-1].no_replace = ["base_has_non_default", "base_name", "base_has_short_name", "base_short_name", "base_has_env", "base_env", "tpo_option", "tpo_multi"]
+    u.functions[-1].unwind_fns = ["tpo_option", "tpo_multi"]
+    u.functions[-1].extra_replace = ["base_matches", "option_update_value", "multi_update_value", "ui_is_short", "ui_has_value", "ui_is_value", "ui_as_short_list"]
+    # ---- parse(): prologue / loop body / epilogue as three functions (rule D11: the body of the token loop becomes a function whose
+    # parameters are the loop-carried locals by reference; `continue` and falling off the end return STEP_NEXT)
+    whole = None
+    for f_ in u.functions:
+        if f_.name == "parser_parse":
+            whole = f_
+    u.functions.remove(whole)
+
+    class Split:
+        def __init__(self, part):
+            self.name, self.part = "D11.loop-split." + part, part
+
+        def apply(self, text):
+            from vf.extract import match_close
+            m = re.search(r"for \(size_t it = 0; it != args->n; \+\+it\)\s*", text)
+            if not m:
+                raise ExtractionError("parse(): the token loop was not found after rewriting")
+            ob = text.index("{", m.end())
+            cb = match_close(text, ob)
+            pro, body, epi = text[:m.start()], text[ob + 1:cb], text[cb + 1:]
+            if self.part == "prologue":
+                if not re.search(r"bool only_positionals_mode = false;\s*struct ovec positionals; ovec_clear\(&positionals\);\s*$", pro):
+                    raise ExtractionError("parse(): the locals declared before the token loop changed: " + pro[-160:])
+                pro = re.sub(r"bool only_positionals_mode = false;", "*mode_ref = false;", pro)
+                pro = re.sub(r"struct ovec positionals; ovec_clear\(&positionals\);", "ovec_clear(positionals_ref);", pro)
+                return pro, 1
+            if self.part == "step":
+                body = re.sub(r"\bcontinue;", "return STEP_NEXT;", body)
+                body = re.sub(r"\bonly_positionals_mode\b", "(*mode_ref)", body)
+                body = re.sub(r"&positionals\b", "positionals_ref", body)
+                body = re.sub(r"\bpositionals\.", "positionals_ref->", body)
+                body = re.sub(r"&it\b", "it_ref", body)
+                body = re.sub(r"(?<![\w.>])it\b", "(*it_ref)", body)
+                return body + "\n        return STEP_NEXT;\n", 1
+            epi = re.sub(r"ret->positionals_ = positionals;", "ret->positionals_ = *positionals_ref;", epi)
+            return epi, 1
+    base_args = "struct oparser *self, const struct oargs *args"
+    common_kw = dict(no_replace=["base_has_non_default", "base_name", "base_has_short_name", "base_short_name", "base_has_env", "base_env"])
+    u.add(F("parser_parse_prologue", PAR, whole.sig, "void parser_parse_prologue(struct oparser *self, nbool *mode_ref, struct ovec *positionals_ref)", P3 + ["C13", "C14"],
+            rules=parse_rules, unwind=K + 1, **common_kw))
+    u.functions[-1].post = [Split("prologue")]
+    u.add(F("parser_parse_step", PAR, whole.sig, "int parser_parse_step(%s, size_t *it_ref, nbool *mode_ref, struct ovec *positionals_ref)" % base_args, P3 + ["C11"],
+            dflt="STEP_RAISED", rules=parse_rules, unwind=K + 1, no_replace=common_kw["no_replace"] + ["ui_data"]))
+    u.functions[-1].post = [Split("step")]
+    u.functions[-1].timeout = 1500
+    u.functions[-1].cases = [("positional_or_dd", {"tpo_option": "nomatch", "tpo_multi": "nomatch"}), ("option", {"tpo_multi": "nomatch"}), ("multi_option", {"tpo_option": "nomatch"}),
+                             ("toggle_or_unknown", {"tpo_option": "nomatch", "tpo_multi": "nomatch"})]
+    for f_ in u.functions:
+        if f_.name in ("tpo_option", "tpo_multi"):
+            f_.alt_contracts = ["nomatch"]
+    u.functions[-1].harness = """void h_parser_parse_step(void)
+{
+    struct oparser p; struct oargs a; nbool mode = nondet_nbool(); struct ovec positionals; size_t it = 0;
+    NITRO_HAVOC;
+    parser_parse_step(&p, &a, &it, &mode, &positionals);
+    NITRO_CANARIES;
+}
+"""
+    u.add(F("parser_parse_epilogue", PAR, whole.sig, "void parser_parse_epilogue(struct oarguments *ret, struct oparser *self, struct ovec *positionals_ref)", P3 + ["C03", "C14"],
+            rules=parse_rules, unwind=K + 1, **common_kw))
+    u.functions[-1].post = [Split("epilogue")]
+    u.static_facts.append("parser::parse(vector) is `check_parser_consistency(); prepare_options(); <locals>; for (it over args) { BODY } validate_options(); <provided>; return arguments(...)`: "
+                          "the three parts are verified as parser_parse_prologue / parser_parse_step (one execution of BODY) / parser_parse_epilogue; the for-header `++it` is part of the induction")
+    # ---- arguments: positional access (C12: index -k addresses the k-th positional from the end)
+    ARGH = "include/nitro/options/arguments.hpp"
+    u.add(F("args_get_int", ARGH, r"const std::string& get\(int i\) const", "size_t args_get_int(const struct oarguments *self, int i)", ["C12"], dflt="0",
+            rules=[Rule("D7.vector-size", r"\bpositionals_\.size\(\)", "self->positionals_.count"), Rule("D2.static-cast", r"static_cast<int>\(", "(int)("),
+                   Rule("D7.vector-at", r"return positionals_\.at\(i\);", "{ size_t nitro_r = ovec_at(&self->positionals_, nitro_int_to_size(i)); NITRO_PROPAGATE; return nitro_r; }")],
+            must_fire=["D7.vector-size", "D7.vector-at"]))
+    u.add(F("args_index", ARGH, r"const std::string& operator\[\]\(int i\) const", "size_t args_index(const struct oarguments *self, int i)", ["C12"], dflt="0",
+            rules=[Rule("D6.member-call", r"return get\(i\);", "{ size_t nitro_r = args_get_int(self, i); NITRO_PROPAGATE; return nitro_r; }")], must_fire=["D6.member-call"]))
+    u.static_facts.append("arguments::get(int)/operator[] return a reference to the element; the extraction returns the element's POSITION in positionals_ (ovec_at), "
+                          "the element itself being positionals_[position] by std::vector::at")
+    # ---- parse(argc, argv): every argv word but the first becomes a user_input, in order (C12, C04)
+    u.add(F("parser_parse_argv", PAR, r"arguments parser::parse\(int argc, const char\* const argv\[\]\)", "void parser_parse_argv(struct oarguments *ret, struct oparser *self, int argc, const struct ostr *argv)", ["C12", "C04", "C01"],
+            rules=[Rule("D7.vector-decl", r"std::vector<options::user_input>\s+args;", "struct oargs args; args.n = 0;"),
+                   Rule("D7.vector-emplace", r"\bargs\.emplace_back\(argv\[i\]\);", "ui_ctor(&args.a[args.n], &argv[i]); NITRO_PROPAGATE; ++args.n;"),
+                   Rule("D3.rvo-call", r"return parse\(args\);", "parser_parse(ret, self, &args); NITRO_PROPAGATE; return;")],
+            must_fire=["D7.vector-decl", "D7.vector-emplace", "D3.rvo-call"], unwind=NARGS + 2,
+            harness="""void h_parser_parse_argv(void)
+{
+    struct oparser p; struct oarguments r; struct ostr argv[NITRO_NARGS + 1]; int argc = nondet_int();
+    NITRO_HAVOC;
+    parser_parse_argv(&r, &p, argc, argv);
+    NITRO_CANARIES;
+}
+"""))
+    u.stubs += ["parser_parse"]
+    u.static_facts.append("parse(argc, argv): `const char*` argv words are std::string(argv[i]) (the text up to the terminating NUL); the vector is bounded by NITRO_NARGS words in the verification of this function")
+    # ------------------------------------------------------------------ layer 4: declarations (C13)
+    BASEH = "include/nitro/options/option/base.hpp"
+    GRP = "src/options/group.cpp"
+    u.add(F("crtp_short_name_set", BASEH, r"Option& short_name\(const std::string& short_name\)", "struct obase *crtp_short_name_set(struct obase *self, const struct ostr *short_name)", ["C13"], dflt="0",
+            rules=[Rule("D7.string-empty", r"\bshort_\.empty\(\)", "(self->short_.len == 0)"), Rule("D7.string-ne", r"\bshort_ != short_name\b", "!ostr_eq_v(self->short_, *short_name)"),
+                   Rule("D7.string-size", r"\bshort_name\.size\(\)", "short_name->len"), Rule("D7.string-assign", r"\bshort_ = short_name;", "self->short_ = *short_name;"),
+                   Rule("D3.crtp-return", r"return \*static_cast<Option\*>\(this\);", "return self;"), Rule("D4.raise-arg", r"(?<![\w.>:])name\(\)", "0")],
+            must_fire=["D7.string-empty", "D7.string-ne", "D7.string-size", "D7.string-assign", "D3.crtp-return"]))
+    G = 2
+    u.shared_decls += "#define NITRO_G %d\n" % G
+    for kind, member, getter in [("options", "options_", "get_options"), ("multi_options", "multi_options_", "get_multi_options"), ("toggles", "toggles_", "get_toggles")]:
+        elem = {"options": "option", "multi_options": "multi_option", "toggles": "toggle"}[kind]
+        u.add(F("parser_get_all_" + kind, PAR, r"std::map<std::string, options::%s\*> parser::get_all_%s\(\) const" % (elem, kind), "void parser_get_all_%s(struct omapk *tmp, const struct oparser2 *self)" % kind, ["C13"],
+                rules=[Rule("D3.rvo-local", r"std::map<std::string, options::%s\*>\s+tmp;" % elem, "omapk_init(tmp);"),
+                       Rule("D10.map-loop", r"for \((?:auto|__auto_type)& (sg|group) : groups_\)", "for (size_t g_ = 0; g_ < self->n_groups; ++g_)"),
+                       Rule("D6.getter", r"(?:auto|__auto_type)& (\w+) = (?:sg|group)\.second\.%s\(\);" % getter, r"const struct omapk *\1 = &self->groups[g_].%s;" % member),
+                       Rule("D10.map-merge", r"for \((?:auto|__auto_type)& (\w+) : (\w+)\)\s*\{\s*tmp\.emplace\(\1\.first,\s*const_cast<options::%s\*>\(&\1\.second\)\);\s*\}" % elem, r"omapk_merge(tmp, \2);"),
+                       Rule("D3.rvo-return", r"return\s+tmp;", "return;")],
+                must_fire=["D3.rvo-local", "D10.map-loop", "D6.getter", "D10.map-merge", "D3.rvo-return"], unwind=G + 1))
+    u.add(F("parser_has_option_with_name", PAR, r"bool parser::has_option_with_name\(const std::string& name\) const", "nbool parser_has_option_with_name(const struct oparser2 *self, const struct ostr *name)", ["C13"], dflt="0",
+            rules=[Rule("D3.temporary-map", r"return\s+get_all_multi_options\(\)\.count\(name\) \+ get_all_options\(\)\.count\(name\) \+\s*get_all_toggles\(\)\.count\(name\);",
+                        "{ struct omapk t1, t2, t3; parser_get_all_multi_options(&t1, self); parser_get_all_options(&t2, self); parser_get_all_toggles(&t3, self); "
+                        "return (omapk_count(&t1, name) + omapk_count(&t2, name) + omapk_count(&t3, name)) != 0; }")],
+            must_fire=["D3.temporary-map"]))
+    for fn, member in [("option", "options_"), ("multi_option", "multi_options_"), ("toggle", "toggles_")]:
+        u.add(F("group_" + fn, GRP, r"options::%s& group::%s\(const std::string& name,\s*const std::string& description\)" % (fn, fn),
+                "struct obase *group_%s(struct ogroup *self, const struct ostr *name, const struct ostr *description)" % fn, ["C13", "C15"], dflt="0", ret_ref=True,
+                rules=[Rule("D6.parser-ref", r"\bparser_\.has_option_with_name\(name\)", "parser_has_option_with_name(self->parser_, name)"),
+                       Rule("D7.map-count", r"\b%s\.count\(name\)" % member, "omapk_count(&self->%s, name)" % member),
+                       Rule("D7.map-emplace", r"(?:auto|__auto_type) res = %s\.emplace\(std::piecewise_construct, std::forward_as_tuple\(name\),\s*std::forward_as_tuple\(name, description\)\);" % member,
+                            "struct oemplaced res = omapk_emplace(&self->%s, name, description);" % member),
+                       Rule("D7.vector-push", r"\border_\.push_back\(&\(res\.first->second\)\);", "oorder_push_back(&self->order_, res.first);"),
+                       Rule("D3.map-return", r"return res\.first->second;", "return res.first;")],
+                must_fire=["D6.parser-ref", "D7.map-count", "D7.map-emplace", "D7.vector-push", "D3.map-return"], no_replace=["omapk_count"],
+                harness="""void h_group_%s(void)
+{
+    struct oparser2 p, q; struct ostr name, description; size_t gi = nondet_nbool() ? 1 : 0;
+    NITRO_HAVOC;
+    g_holder = &p;      /* the parser whose groups_ map holds the group; q: the object the group's back reference names after a move */
+    p.groups[0].parser_ = nondet_nbool() ? &p : &q; p.groups[1].parser_ = p.groups[0].parser_;
+    group_%s(&p.groups[gi], &name, &description);
+    NITRO_CANARIES;
+}
+""" % (fn, fn)))
+    u.trusted += ["std::map<std::string, T> is modelled for ONE key, the name being declared (omapk: contains it or not, the mapped object, the number of entries): count/emplace/iteration+emplace as the standard says"]
     return u
